@@ -8,7 +8,7 @@ import shutil
 import tempfile
 
 from mc import keys as K
-from mc.engine import PRUNE, State, System, Violation, call, canon
+from mc.engine import PRUNE, State, System, Violation, call, canon, twin_divergence
 
 from probables import CountMeanMinSketch, CountMeanSketch, CountMinSketch, HeavyHitters, StreamThreshold
 
@@ -371,10 +371,8 @@ class CMSSystem(System):
         finally:
             shutil.rmtree(tmp, ignore_errors=True)
 
-    def _queries(self, cfg, st, keys, hf, bad):
-        f = st.impl
+    def _ro(self, cfg, f, keys, hf):
         kind = cfg["cls"]
-        before = observation(f, kind)
         for k in list(keys) + ["absent-1"]:
             call(f.check, k)
             call(f.__contains__, k)
@@ -388,9 +386,19 @@ class CMSSystem(System):
         if kind not in ("hh", "st"):
             recv = make(cfg, hf)
             call(recv.join, f)
+
+    def _queries(self, cfg, st, keys, hf, bad):
+        f = st.impl
+        kind = cfg["cls"]
+        before = observation(f, kind)
+        self._ro(cfg, f, keys, hf)
         after = observation(f, kind)
         if before != after:
             bad("C19", "cms.queries_do_not_mutate", {"before": repr(before)[:300], "after": repr(after)[:300], "cls": kind})
+        if self.cur_depth <= cfg.get("twin_depth", 2):
+            div = twin_divergence(self, cfg, st, lambda q: self._ro(cfg, q.impl, keys, hf), lambda x: observation(x.impl, kind))
+            if div is not None:
+                bad("C19", "cms.queried_twin_diverges_one_step_later", div)
         g = self.clone(st).impl
         c = call(g.clear)
         fresh = make(cfg, hf)
